@@ -133,7 +133,13 @@ def gen_tree(rng, max_nodes=25, ws_mode=None, names=NAMES, max_depth=6, kinds=('
             h = rng.choice(holders)
             idx = [i for i, k in enumerate(h.kids) if isinstance(k, E)]
             i = rng.choice(idx)
-            h.kids.insert(rng.choice([i, i + 1, len(h.kids)]), copy.deepcopy(h.kids[i]))
+            twin = copy.deepcopy(h.kids[i])
+            if rng.random() < .5 and len(holders) > 1:
+                # the twin under *another* parent: equal by value, different ancestors
+                h2 = rng.choice([x for x in holders if x is not h])
+                h2.kids.insert(rng.randrange(len(h2.kids) + 1), twin)
+            else:
+                h.kids.insert(rng.choice([i, i + 1, len(h.kids)]), twin)
     return root, ws_mode
 
 
